@@ -312,14 +312,13 @@ theorem exec_getUsing {s : Store} (hs : StoreInv s) (nm : String) (u : Usage) (o
     simp only [Thread.next]
     split
     · next o os hos =>
-      simp only at hos
       split
       · next ho =>
         refine afterOwner_ok hb ⟨h1, h2, h3, h4, ?_⟩
         intro b' hb'
-        simp only at hb'
+        change u.by_ = some b' at hb'
         rw [hby] at hb'; cases hb'
-        refine ⟨o, by simp only; rw [hos]; exact List.mem_cons_self, ?_⟩
+        refine ⟨o, by change o ∈ u.owners; rw [hos]; exact List.mem_cons_self, ?_⟩
         rw [ho]; exact hborn
       · exact goto_ok hb (.addOwner ⟨g.uid, false, g.kind, g.name⟩) ⟨h1, h2, h3, h4, b, hby, hborn⟩
     · exact goto_ok hb (.addOwner ⟨g.uid, false, g.kind, g.name⟩) ⟨h1, h2, h3, h4, b, hby, hborn⟩
